@@ -263,6 +263,23 @@ CLAIMS["C17"] = (
     "Known finding: as_list on TypedDict follows alphabetical, not definition order (undocumented).",
     "DESIGN.md section 5 C17", TECH)
 
+CLAIMS["C12"] = (
+    "Proof (partial): C12_conc_safe - in the transition system of the atomic accesses to the shared call cache, the loader "
+    "cache and the recursion stubs, for ANY number of threads and ANY interleaving, whatever a returned request holds reaches "
+    "(directly or through set stubs) only stubs that have been set - with stubs compared by identity; "
+    "C12_by_location_refuted - the witness schedule for the code as it was; C12_stubs_compare_by_identity and "
+    "C12_shared_state_code_is_the_reviewed_one tie the model's premises to /repo (regenerated every run); "
+    "C12_replay_reachable - the executable replay used for recorded traces is sound for the relation. Partial because "
+    "CPython's scheduler, C-level release points and free-threaded memory effects are outside the model. Tie: a "
+    "sys.settrace scheduler (no source hook) drives real threads through Retort.load / dump on 7 scenarios, every "
+    "single-preemption schedule at line granularity of the files touching shared state, sampled double-preemption and "
+    "three-thread schedules; results must equal the single-threaded ones, loaders are called again afterwards; recorded "
+    "traces of shared accesses must be accepted by the model's replay.",
+    "Trusted: Coq kernel, the translator of the shared-state code, the review recorded in Proofs/ConcFactsAudit.v (why only "
+    "shared accesses need be interleaving points), the scheduler; ConcurrentCounter.generate_idx is one atomic step (it "
+    "runs under its lock).",
+    "DESIGN.md section 5 C12", TECH)
+
 NOT_YET = "check not built yet in this session (DESIGN.md section 10 build order); not claimed until its model, theorems and correspondence exist"
 
 
